@@ -508,6 +508,7 @@ func fixedHarmless() []mutant {
 		{Harmless: true, ID: "h-r21-C07r-fixed", Patch: "seeded/C07r-tidy-prealloc-clear-dropped/fixed.diff"},
 		{Harmless: true, ID: "h-r21-C08r-fixed", Patch: "seeded/C08r-tidy-excluded-helper-takes-norm-bits/fixed.diff"},
 		{Harmless: true, ID: "h-r21-C09r-fixed", Patch: "seeded/C09r-tidy-dv-flag-hoisted-out-of-field-loop/fixed.diff"},
+		{Harmless: true, ID: "h-r21-C10r-fixed", Patch: "seeded/C10r-tidy-reset-drops-map-reset/fixed.diff"},
 		{Harmless: true, ID: "h-r21-C11r-fixed", Patch: "seeded/C11r-tidy-empty-iterator-sentinel-reused/fixed.diff"},
 		{Harmless: true, ID: "h-r21-C12r-fixed", Patch: "seeded/C12r-tidy-addrforfield-commaok-folded/fixed.diff"},
 		{Harmless: true, ID: "h-r21-C13r-fixed", Patch: "seeded/C13r-tidy-clear-one-of-two-maps/fixed.diff"},
